@@ -186,20 +186,26 @@ func TestVerifChainRules(t *testing.T) {
 					if na < 1 {
 						na = 1
 					}
-					if r.Intn(12) == 0 {
-						// counts that only differ from an admissible count by a multiple of 256
+					bigCount := r.Intn(12) == 0
+					if bigCount {
+						// counts that only differ from an admissible count by a multiple of 256; in two of three such
+						// transactions the count is the only possible objection (with hundreds of actions a random
+						// activation range would almost surely deactivate one of them and mask the count)
 						na = []int{255, 256, 256 + int(w.rules.MaxActionsPerTx), 257 + int(w.rules.MaxActionsPerTx), 512, 512 + int(w.rules.MaxActionsPerTx)}[r.Intn(6)]
+						if r.Intn(3) != 0 {
+							v.Expiry, v.WrongCID = base, false
+						}
 					}
 					v.Actions = nil
 					for j := 0; j < na; j++ {
 						a := putAction(r, w)
-						if r.Intn(5) == 0 {
+						if !bigCount && r.Intn(5) == 0 {
 							a.Start = []int64{-1, realTs - 1, realTs, realTs + 1}[r.Intn(4)]
 							a.End = []int64{-1, realTs - 1, realTs, realTs + 1}[r.Intn(4)]
 						}
 						v.Actions = append(v.Actions, a)
 					}
-					if r.Intn(6) == 0 {
+					if !bigCount && r.Intn(6) == 0 {
 						v.AuthFrom = []int64{-1, realTs - 1, realTs, realTs + 1}[r.Intn(4)]
 						v.AuthTo = []int64{-1, realTs - 1, realTs, realTs + 1}[r.Intn(4)]
 						if v.AuthFrom == 0 && v.AuthTo == 0 {
